@@ -57,9 +57,9 @@ import (
 // another feature or key.
 //
 // Outside the slot (reported as info): branches that copy a base feature into the overlay and index
-// it with the full token set `index.Add(f, TokensForFeature(...))`; their correctness depends on
-// TokensForFeature and on base/overlay shadowing (SHADOW-FILTER, OVERLAY-PRECEDENCE), not on a
-// pair of guards.
+// it with the full token set `index.Add(f, TokensForFeature(...))`: not a pair of guards. That the
+// copy is registered completely (feature map, references, full token set) is decided by
+// INSERT-TRIPLE.
 func init() {
 	register(&Rule{
 		Name:  "INDEX-DELTA",
@@ -507,7 +507,7 @@ func hIndexDeltaMethod(c *Ctx, p *packages.Package, fd *ast.FuncDecl, isAdd bool
 	var out []Obligation
 	for i, call := range full {
 		out = append(out, Obligation{Key: fmt.Sprintf("%s#full%d", name, i+1), Pos: c.Position(call.Pos()), Status: Info,
-			Detail: "index operation with a computed token list (" + types.ExprString(call.Args[1]) + "): a feature copied from the base is indexed with its full token set; outside the slot of INDEX-DELTA"})
+			Detail: "index operation with a computed token list (" + types.ExprString(call.Args[1]) + "): a feature copied from the base is indexed with its full token set; not a pair of guards, decided by INSERT-TRIPLE"})
 	}
 	if len(single) == 0 {
 		return out
